@@ -28,7 +28,7 @@
       - targets that substitute approximate distances (ShapeIndex targets with MaxError > 0,
         avoidDuplicates, conservative cell distances): rank-wise error bound for MaxResults > 1 *)
 From Coq Require Import ZArith List Bool Sorted.
-From Geo Require Import Model.EdgeQuery Proofs.C08_Post Proofs.C08_Opt Proofs.C08_Heap Proofs.C08_Main Proofs.C08_Refute.
+From Geo Require Import Model.EdgeQuery Proofs.C08_Post Proofs.C08_Opt Proofs.C08_Heap Proofs.C08_Main Proofs.C08_Refute Proofs.C08_Example.
 Import ListNotations.
 Local Open Scope Z_scope.
 
